@@ -133,7 +133,7 @@ fn check_half_life(x: &[X], mp: usize, fam: &str, ctx: &mut Ctx, watch: &Watch, 
 fn half_life_all(run: &Run, ctx: &mut Ctx, watch: &Watch) {
     // (1) ramp family: realises every pair (len, L)
     let fam = "half_life/ramps";
-    for len in 1..=run.pick(48, 64) {
+    for len in 1..=run.pick(48, 96) {
         let x: Vec<X> = (0..len).map(|i| Some(i as f64)).collect();
         for mp in 1..=len {
             ctx.states += 1;
@@ -145,7 +145,7 @@ fn half_life_all(run: &Run, ctx: &mut Ctx, watch: &Watch) {
     }
     // (2) block-constant and alternating profiles
     let fam = "half_life/profiles";
-    for len in 2..=run.pick(24, 40) {
+    for len in 2..=run.pick(24, 56) {
         for block in 1..=len {
             for kind in 0..3 {
                 let x: Vec<X> = (0..len)
@@ -396,8 +396,8 @@ fn main() {
             }
         });
     }
-    let hl = Words { alpha: vec![None, Some(-1.0), Some(0.0), Some(1.0), Some(2.0)], max_len: run.pick(6, 7), kind: 0, watch: watch.clone() };
-    let wz = Words { alpha: if run.quick() { alphabet5(run.seed) } else { alphabet6() }, max_len: run.pick(5, 6), kind: 1, watch: watch.clone() };
+    let hl = Words { alpha: vec![None, Some(-1.0), Some(0.0), Some(1.0), Some(2.0)], max_len: run.pick(6, 8), kind: 0, watch: watch.clone() };
+    let wz = Words { alpha: if run.quick() { alphabet5(run.seed) } else { alphabet6() }, max_len: run.pick(5, 7), kind: 1, watch: watch.clone() };
     let sp = Words { alpha: vec![None, Some(0.0), Some(1.0), Some(2.0), Some(3.0)], max_len: run.pick(4, 5), kind: 2, watch: watch.clone() };
     if let Some(path) = &run.replay {
         let stored = load_replay(path).unwrap_or_else(|e| {
@@ -428,7 +428,7 @@ fn main() {
     total.sample(json!({"op": "half_life", "series": "ramp 0..40", "min_periods": 1, "model": 39}));
     let meta = Meta {
         rule: "half_life: the ramp family (len 1..=N, every min_periods: realises every (len, L) pair hence every path of the doubling search and of the bisection), square-wave / staircase / alternating profiles, and every word over {null,-1,0,1,2} up to length L with every min_periods (f64 and Option<f64>): no panic, returns (watchdog), result in 1..=len-1 (0 iff len < 2), and when the model's lag profile is a strict threshold profile the result is the first lag not above 0.5 capped at len-1. winsorize: every word of the value alphabet x 3 methods x parameter grids: one output per input, nulls stay null, inside values bit-identical, outside values on the nearer model bound, order preserving. vcorr(Spearman): every pair word over {null,0,1,2,3}^2 with <= 1 null each: equals Pearson of average ranks; invariant under 2x+1, x^3, exp. Non-trivial = distinct words / (len, min_periods) points.".into(),
-        bounds: json!({"ramp_len": run.pick(48, 64), "profile_len": run.pick(24, 40), "half_life_words_L": hl.max_len, "winsorize": {"alphabet": json_word(&wz.alpha), "L": wz.max_len, "q": [0, 0.01, 0.1, 0.25, 0.5], "k": [0, 0.5, 1, 3]}, "spearman_L": sp.max_len}),
+        bounds: json!({"ramp_len": run.pick(48, 96), "profile_len": run.pick(24, 56), "half_life_words_L": hl.max_len, "winsorize": {"alphabet": json_word(&wz.alpha), "L": wz.max_len, "q": [0, 0.01, 0.1, 0.25, 0.5], "k": [0, 0.5, 1, 3]}, "spearman_L": sp.max_len}),
         assumptions: vec!["profiles within 1e-6 of the 0.5 threshold are judged for totality and range only".into(), "finite exact inputs (DESIGN 5.2)".into()],
         exhaustive: true,
         min_states: 1000,
